@@ -11,4 +11,7 @@ MUTANTS = [
          old="dict.fromkeys(", new="sorted(", count=2),
     dict(name="alias-metadata-needs-closing-bracket", file="core/writers/python_construct_renderer.py", expect="R14.4",
          old='        if discriminator and target_type.startswith("Union["):', new='        if discriminator and target_type.startswith("Union[") and target_type.endswith("]"):'),
+    dict(name="mapping-rekeyed-by-schema", file="core/writers/python_construct_renderer.py", expect="R14.5",
+         old="                for disc_value, schema_ref in discriminator.mapping.items():\n                    schema_name = schema_ref.split(\"/\")[-1]\n                    writer.write_line(f\"            {json.dumps(disc_value, ensure_ascii=False)}: {schema_name},\")",
+         new="                for schema_name, disc_value in {r.split(\"/\")[-1]: v for v, r in discriminator.mapping.items()}.items():\n                    writer.write_line(f\"            {json.dumps(disc_value, ensure_ascii=False)}: {schema_name},\")"),
 ]
